@@ -31,3 +31,9 @@ VARIANTS = [
     v("c09-twin-cmp", A, "if calstart_ix >= calstop_ix:", "if calstop_ix <= calstart_ix:", expect="silent"),
     v("c09-twin-short", A, "if abs(calstop_ix - calstart_ix) <= 1:", "if calstop_ix - calstart_ix < 2:", expect="silent"),
 ]
+
+VARIANTS += [
+    v("c09-grp-int8", A, 'groups = groups.astype("int16")', 'groups = groups.astype("int8")', names="spi", note="more than 127 groups (daily climatology) wrap"),
+    v("c09-nodata-or", A, '        if nodata is None:\n            if (nodata := self._obj.attrs.get("nodata")) is None:\n                raise ValueError(\n                    "Need nodata attribute defined, or nodata argument provided."\n                )\n\n        # pylint: disable=import-outside-toplevel\n        from .ops.stats import (\n            gammastd_yxt,',
+      '        nodata = nodata or self._obj.attrs.get("nodata")\n        if nodata is None:\n            raise ValueError(\n                "Need nodata attribute defined, or nodata argument provided."\n            )\n\n        # pylint: disable=import-outside-toplevel\n        from .ops.stats import (\n            gammastd_yxt,', names="R-TRUTHY"),
+]
